@@ -48,6 +48,7 @@ func checkC10(ctx *Ctx, r *Report) {
 	c10FourthHunt(ctx, r)
 	c10FifthHunt(ctx, r)
 	c10SixthHunt(ctx, r)
+	c10SeventhHunt(ctx, r)
 }
 
 func c10DefaultCarried(ctx *Ctx, r *Report) map[*types.Func]bool {
@@ -2139,4 +2140,162 @@ func c10SixthHunt(ctx *Ctx, r *Report) {
 	r.Count("hunted clauses of the default rules (6th hunt)", 1)
 	r.Check(len(rounded) == 0, "kinds/java-float-literals-exact", "java.formatType writes a float default", fd.Pos(), "with every digit of the value",
 		fmt.Sprintf("java.formatType writes floats with a fixed number of decimals (%v): `ratio: float64 | *2.75` gives `this.ratio = 2.8;`, `small: float32 | *0.125` gives `this.small = 0.1f;` — the object built with no option set does not hold the default of the schema", rounded))
+}
+
+// c10SeventhHunt — sixth hunt of C10:
+//   - Go names the branch of a union wrapper that holds an overriding default after the Go type of the decoded value
+//     (an integer is always an int64): before falling back on a branch that does not exist, defaultsForStructRec looks
+//     the value up among the branches the union declares (a helper that ranges over the fields and reads their scalar
+//     kind);
+//   - Python: the branch of defaultValueForTypeRec that follows a reference to a named union reads the default the
+//     reference carries, as its sibling branches (alias, named scalar, enum) do;
+//   - CUE: the default of a disjunction is a *value*: subsumption is asked on final values, and the single branch a
+//     default leaves behind keeps the default.
+func c10SeventhHunt(ctx *Ctx, r *Report) {
+	n := 0
+	// (a)
+	if fn := ctx.LookupMethod("internal/jennies/golang", "RawTypes", "defaultsForStructRec"); fn == nil {
+		r.Undecided("anchor lost: golang.RawTypes.defaultsForStructRec")
+	} else if fd, p := ctx.DeclOf(fn); fd != nil {
+		info := p.TypesInfo
+		looksUp := false
+		ast.Inspect(fd.Body, func(m ast.Node) bool {
+			is, ok := m.(*ast.IfStmt)
+			if !ok || !strings.Contains(exprString(is.Cond), "IsStructGeneratedFromDisjunction()") {
+				return true
+			}
+			ast.Inspect(is.Body, func(q ast.Node) bool {
+				c, ok := q.(*ast.CallExpr)
+				if !ok {
+					return true
+				}
+				f := callee(info, c)
+				if f == nil || f.Pkg() != p.Types {
+					return true
+				}
+				gd, _ := ctx.DeclOf(f)
+				if gd == nil || gd.Body == nil {
+					return true
+				}
+				ranges, kinds := false, false
+				ast.Inspect(gd.Body, func(z ast.Node) bool {
+					switch x := z.(type) {
+					case *ast.RangeStmt:
+						if strings.HasSuffix(exprString(x.X), ".Fields") {
+							ranges = true
+						}
+					case *ast.SelectorExpr:
+						if x.Sel.Name == "ScalarKind" {
+							kinds = true
+						}
+					}
+					return true
+				})
+				if ranges && kinds {
+					looksUp = true
+				}
+				return true
+			})
+			return true
+		})
+		n++
+		r.Check(looksUp, "kinds/go-union-default-branch-declared", "golang.defaultsForStructRec picks the branch of a union for an overriding default", fd.Pos(), "among the branches the union declares, by their scalar kind",
+			"the branch is named after the Go type of the decoded value and nothing else is tried: `#Inner: {ratio: string | float64, size: string | int32}; Root: {inner: #Inner | *{ratio: 2, size: 5}}` writes `StringOrFloat64{Any: (func (input unknown) *unknown …)(2)}` — unknown field Any, undefined: unknown; Python yields {\"ratio\":2,\"size\":5}")
+	}
+	// (b)
+	if fn := ctx.LookupFunc("internal/jennies/python", "defaultValueForTypeRec"); fn == nil {
+		r.Undecided("anchor lost: python.defaultValueForTypeRec")
+	} else if fd, p := ctx.DeclOf(fn); fd != nil {
+		info := p.TypesInfo
+		var param types.Object
+		for _, f := range fd.Type.Params.List {
+			for _, name := range f.Names {
+				if namedName(info.TypeOf(f.Type)) == "Type" && param == nil {
+					param = info.Defs[name]
+				}
+			}
+		}
+		seen, reads := false, false
+		ast.Inspect(fd.Body, func(m ast.Node) bool {
+			is, ok := m.(*ast.IfStmt)
+			if !ok || !strings.Contains(exprString(is.Cond), "referredObj.Type.IsDisjunction()") {
+				return true
+			}
+			seen = true
+			ast.Inspect(is.Body, func(q ast.Node) bool {
+				if sel, ok := q.(*ast.SelectorExpr); ok && sel.Sel.Name == "Default" {
+					if id, ok := ast.Unparen(sel.X).(*ast.Ident); ok && info.Uses[id] == param {
+						reads = true
+					}
+				}
+				return true
+			})
+			return true
+		})
+		if !seen {
+			r.Undecided("anchor changed: python.defaultValueForTypeRec has no branch for references to named unions")
+		}
+		n++
+		r.Check(reads, "traverse/python-union-reference-default", "python.defaultValueForTypeRec follows a reference to a named union", fd.Pos(), "the default the reference carries is read",
+			"the branch that follows a reference to a named union ignores the default of the reference: `#U: string | int64; u: #U | *\"abc\"` (or `{\"$ref\": \"#/$defs/U\", \"default\": \"abc\"}`) gives u=\"\" in Python and \"abc\" in Go")
+	}
+	// (c)
+	if p := ctx.Pkg("internal/simplecue"); p == nil {
+		r.Undecided("anchor lost: internal/simplecue")
+	} else {
+		info := p.TypesInfo
+		if fd := c12Method(p, "subsumedByAnotherBranch"); fd == nil {
+			r.Undecided("anchor lost: simplecue.generator.subsumedByAnotherBranch")
+		} else {
+			final := false
+			ast.Inspect(fd.Body, func(m ast.Node) bool {
+				if c, ok := m.(*ast.CallExpr); ok {
+					if f := callee(info, c); f != nil && f.Name() == "Subsume" {
+						for _, a := range c.Args[1:] {
+							if ac, ok := ast.Unparen(a).(*ast.CallExpr); ok {
+								if af := callee(info, ac); af != nil && af.Name() == "Final" {
+									final = true
+								}
+							}
+						}
+					}
+				}
+				return true
+			})
+			n++
+			r.Check(final, "frontier/cue-default-is-a-final-value", "simplecue.subsumedByAnotherBranch asks whether a branch allows the default", fd.Pos(), "on final values (cue.Final())",
+				"the default of a disjunction is compared with the other branches as a type: a concrete struct is not subsumed by a pattern constraint unless the values are final, so `{[string]: string} | *{env: \"prod\"}` keeps its default as a branch — the field is typed map | struct{env: \"prod\"}, Go builds {\"labels\":{}} and Python {\"labels\":{\"env\":\"prod\"}}")
+		}
+		if fd := c12Method(p, "declareDisjunction"); fd == nil {
+			r.Undecided("anchor lost: simplecue.generator.declareDisjunction")
+		} else {
+			carried, seen := false, false
+			ast.Inspect(fd.Body, func(m ast.Node) bool {
+				is, ok := m.(*ast.IfStmt)
+				if !ok || !strings.Contains(exprString(is.Cond), "len(disjunctionBranches) == 1") {
+					return true
+				}
+				seen = true
+				ast.Inspect(is.Body, func(q ast.Node) bool {
+					if as, ok := q.(*ast.AssignStmt); ok {
+						for _, l := range as.Lhs {
+							if sel, ok := ast.Unparen(l).(*ast.SelectorExpr); ok && sel.Sel.Name == "Default" {
+								carried = true
+							}
+						}
+					}
+					return true
+				})
+				return true
+			})
+			if !seen {
+				r.Undecided("anchor changed: declareDisjunction has no single-branch exit")
+			}
+			n++
+			r.Check(carried, "frontier/cue-default-is-a-final-value", "simplecue.declareDisjunction returns the single branch a default leaves", fd.Pos(), "with the default",
+				"when the default is one of the values of the only other branch, that branch is declared on its own and the default is dropped: `{[string]: string} | *{env: \"prod\"}` becomes a map without default")
+		}
+	}
+	r.Count("hunted clauses of the default rules (7th hunt)", n)
+	r.Floor("hunted clauses of the default rules (7th hunt)", 4)
 }
